@@ -84,13 +84,20 @@ def do_query(doc, q, r):
     """returns a comparable result"""
     if q.startswith('objects_'):
         kind = q.split('_')[1]
+        def show(o):
+            if kind == 'geometry':
+                return (o.original.id, canon(o.matrix), [canon(p.vertex) for p in o.primitives()])
+            return (o.original.id, canon(getattr(o, 'position', None)), canon(getattr(o, 'direction', None)))
         out = []
         for s in doc.scenes:
             for o in s.objects(kind):
-                if kind == 'geometry':
-                    out.append((o.original.id, canon(o.matrix), [canon(p.vertex) for p in o.primitives()]))
-                else:
-                    out.append((o.original.id, canon(getattr(o, 'position', None)), canon(getattr(o, 'direction', None))))
+                out.append(show(o))
+        # a result is the caller's once it was handed out: looked at after the traversal went on (and finished) it is what it was
+        kept = [show(o) for s in doc.scenes for o in list(s.objects(kind))]
+        if kept != out:
+            k = next((i for i, (a, b) in enumerate(zip(out, kept)) if a != b), min(len(out), len(kept)))
+            raise Inconsistent('objects(%r): result %d of %d (%s) looked at when it is handed out is not what it is once the traversal has finished'
+                               % (kind, k, len(out), out[k][0] if k < len(out) else '-'))
         return out
     prims = [(g, p) for g in doc.geometries for p in g.primitives]
     if q == 'shapes':
